@@ -20,6 +20,14 @@ RULE = ('well-formed files are produced by the independent spec serializer '
         "the offending section, with the earlier records intact. "
         'Non-trivial = file uses at least one foreign liberty or is a defect '
         'case; distinct = fingerprint of the bytes.')
+RULE += (
+         ' Also: files with runs of up to 4000 blank lines, indented '
+         'preambles whose blank lines carry no padding (content shorter than'
+         ' the declared indent), reading through real buffered / unbuffered '
+         'files and gzip / bz2 / xz streams, and 2-4 readers at work at once'
+         ' (threads under the seeded scheduler, interleaved generators). '
+         'Process axes (DESIGN 2.8): 2 of 16 shards run under python -O, 4 '
+         'of 16 after a hostile warm-up of the library.')
 FLOOR = {'quick': 8000, 'thorough': 200000}
 REQUIRED_REACH = ['reader.py:']
 REQUIRED_COUNTERS = ['wellformed_files', 'defects_checked',
